@@ -113,7 +113,7 @@ def judge_calls(ctx, calls):
     for k, (case, rec) in enumerate(calls):
         case["tid"] = k + 1
         cases.append(case)
-    return ctx.judge("Trace_Downscale", cases, workers=16, chunk=4000)
+    return ctx.judge("Trace_Downscale", cases, workers=12, chunk=4000)
 
 
 def run(ctx):
